@@ -629,100 +629,3 @@ Proof.
     f_equal; [f_equal; [exact H0|apply Hx; exact H1]|apply IHl; exact H2].
 Qed.
 
-(* ------------------------------------------------------------------ the bounds of the shipped schemas *)
-Fixpoint jbounds (j : json) : list num :=
-  match j with
-  | JObj l => (fix go (l : list (str * json)) : list num :=
-                 match l with
-                 | [] => []
-                 | (k, x) :: l' => (if is_bound_key k then bound_nums x else []) ++ jbounds x ++ go l'
-                 end) l
-  | JArr l => (fix go (l : list json) : list num :=
-                 match l with [] => [] | x :: l' => jbounds x ++ go l' end) l
-  | _ => []
-  end.
-
-Fixpoint insert_num (a : num) (l : list num) : list num :=
-  match l with
-  | [] => [a]
-  | b :: l' => if num_eqb a b then l else if nltb a b then a :: l else b :: insert_num a l'
-  end.
-
-(* every number a version is ever compared with: the two defaults and the
-   minVersion / maxVersion values of the schema files, in increasing order *)
-Definition shipped_bounds : list num :=
-  fold_right insert_num [] ((0, 0) :: (1, 3) :: flat_map (fun kv => jbounds (snd kv)) schema_files).
-
-(* a number strictly between two decimals / below / above one *)
-Definition mid (a b : num) : num :=
-  let k := Z.min (snd a) (snd b) in
-  ((fst a * 10 ^ (snd a - k) + fst b * 10 ^ (snd b - k)) * 5, k - 1).
-Definition below (a : num) : num := (fst a * 10 - 1, snd a - 1).
-Definition above (a : num) : num := (fst a * 10 + 1, snd a - 1).
-
-Fixpoint with_gaps (l : list num) : list (num * num) :=
-  match l with
-  | [] => []
-  | [b] => [(b, above b)]
-  | b :: ((b' :: _) as l') => (b, mid b b') :: with_gaps l'
-  end.
-
-Definition shipped_g0 : num := match shipped_bounds with b :: _ => below b | [] => (0, 0) end.
-Definition shipped_bs : list (num * num) := with_gaps shipped_bounds.
-Definition shipped_B : list num := map fst shipped_bs.
-Definition shipped_reps : list num := reps shipped_g0 shipped_bs.
-
-Lemma shipped_chain : chain shipped_g0 shipped_bs = true.
-Proof. vm_compute. reflexivity. Qed.
-
-Lemma shipped_defaults : has_defaults shipped_B.
-Proof. split; apply mem_num_In; vm_compute; reflexivity. Qed.
-
-Lemma shipped_store_bounded : bounded_store shipped_B schema_files = true.
-Proof. vm_compute. reflexivity. Qed.
-
-(* every version has a representative among the 2|B|+1 that compares alike *)
-Lemma shipped_rep v : exists r, In r shipped_reps /\ vsame shipped_B v r.
-Proof.
-  exists (rep v shipped_g0 shipped_bs). split; [apply rep_in|].
-  apply rep_same. exact shipped_chain.
-Qed.
-
-Lemma file_bounded name root :
-  assoc name schema_files = Some root -> entry_bounded shipped_B (mk_entry root schema_files).
-Proof.
-  intros H. split; cbn [e_root e_store]; [|exact shipped_store_bounded].
-  eapply bounded_assoc; [exact shipped_store_bounded|exact H].
-Qed.
-
-(* ------------------------------------------------------------------ [F] the versioned schema of root map *)
-Definition map_entry : entry := mk_entry schema_map schema_files.
-Definition map_tree : json := expand schema_files schema_map.
-
-Definition map_check (r : num) : bool :=
-  match prune_entry r map_entry with
-  | Ok e => json_eqb (entry_tree e) (tprune r map_tree)
-  | Err _ => false
-  end.
-
-Lemma map_tree_bounded : bounded shipped_B map_tree = true.
-Proof. vm_compute. reflexivity. Qed.
-
-Lemma map_check_reps : forallb map_check shipped_reps = true.
-Proof. vm_compute. reflexivity. Qed.
-
-Lemma map_file : assoc (schema_file_name (Str "map")) schema_files = Some schema_map.
-Proof. vm_compute. reflexivity. Qed.
-
-Lemma map_pruned_tree (v : num) :
-  exists e, prune_entry v map_entry = Ok e /\ entry_tree e = tprune v map_tree.
-Proof.
-  destruct (shipped_rep v) as (r & Hin & Hs).
-  pose proof map_check_reps as Hc. rewrite forallb_forall in Hc. specialize (Hc r Hin).
-  unfold map_check in Hc.
-  rewrite (prune_entry_param shipped_B v r map_entry shipped_defaults Hs (file_bounded _ _ map_file)).
-  destruct (prune_entry r map_entry) as [e|]; [|discriminate].
-  exists e. split; [reflexivity|].
-  rewrite (tprune_param shipped_B v r shipped_defaults Hs map_tree map_tree_bounded).
-  apply json_eqb_eq. exact Hc.
-Qed.
